@@ -42,7 +42,8 @@ def jobs(tier, seed):
             out.append({"name": "quality_trim_index/n=%d/base=%d" % (n, base), "fn": "qti", "n": n, "base": base})
             out.append({"name": "nextseq_trim_index/n=%d/base=%d" % (n, base), "fn": "nextseq", "n": n, "base": base})
         out.append({"name": "base_shift/n=%d" % n, "fn": "shift", "n": n})
-        out.append({"name": "modifiers/n=%d" % n, "fn": "modifiers", "n": n})
+        for base in (33, 64):
+            out.append({"name": "modifiers/n=%d/base=%d" % (n, base), "fn": "modifiers", "n": n, "base": base})
     out.append({"name": "parse_cutoffs", "fn": "parse"})
     return out
 
@@ -149,7 +150,7 @@ def run_job(job):
     if fn == "shift":
         return run_paths(J, lambda ctx: path_shift(J, ctx, job["n"]), timeout_ms=tmo)
     if fn == "modifiers":
-        return run_paths(J, lambda ctx: path_modifiers(J, ctx, job["n"]), timeout_ms=tmo)
+        return run_paths(J, lambda ctx: path_modifiers(J, ctx, job["n"], job.get("base", 33)), timeout_ms=tmo)
     if fn == "parse":
         return run_parse(J)
     raise ValueError(fn)
@@ -233,39 +234,39 @@ def path_shift(J, ctx, n):
     J.sample = {"fn": "base shift 33 vs 64", "n": n}
 
 
-def path_modifiers(J, ctx, n):
+def path_modifiers(J, ctx, n, base=33):
     import cutadapt.modifiers as M
     it = new_interp(ctx)
-    quals = sym_str(ctx, "q", n, lo=33, hi=126)
+    quals = sym_str(ctx, "q", n, lo=base, hi=126)
     bases = sym_str(ctx, "b", n, alphabet="ACGTNg")
     cf = sym_int(ctx, "cf", -CUT, CUT)
     cb = sym_int(ctx, "cb", -CUT, CUT)
     t0 = sym_int(ctx, "t0", 0, 1 << 40)
     g = program().pyx["cutadapt.qualtrim"].globals
-    mk = _cex("modifiers", qualities=quals, sequence=bases, cutoff_front=cf, cutoff_back=cb, trimmed_before=t0)
+    mk = _cex("modifiers", qualities=quals, sequence=bases, cutoff_front=cf, cutoff_back=cb, trimmed_before=t0, base=base)
     # QualityTrimmer
     qt = object.__new__(M.QualityTrimmer)
-    it.call_value(it.getattr(qt, "__init__"), [cf, cb, 33], {})
+    it.call_value(it.getattr(qt, "__init__"), [cf, cb, base], {})
     qt.trimmed_bases = t0
     rec = RecView(bases, quals)
     out = it.call_value(it.getattr(qt, "__call__"), [rec, None], {})
-    start, stop = it.call_value(g["quality_trim_index"], [quals, cf, cb, 33], {})
+    start, stop = it.call_value(g["quality_trim_index"], [quals, cf, cb, base], {})
     J.safety(ctx, mk)
     J.claim(ctx, z3.And(zint(out.start) == zint(start), zint(out.stop) == z3.If(zint(stop) >= zint(start), zint(stop), zint(start)),
                         zint(qt.trimmed_bases) == zint(t0) + n - (zint(out.stop) - zint(out.start))),
             "QualityTrimmer: slice or trimmed_bases differ from the kernel's indices", mk)
     # NextseqQualityTrimmer
     nt = object.__new__(M.NextseqQualityTrimmer)
-    it.call_value(it.getattr(nt, "__init__"), [cb, 33], {})
+    it.call_value(it.getattr(nt, "__init__"), [cb, base], {})
     nt.trimmed_bases = t0
     out2 = it.call_value(it.getattr(nt, "__call__"), [rec, None], {})
-    s2 = it.call_value(g["nextseq_trim_index"], [rec, cb, 33], {})
+    s2 = it.call_value(g["nextseq_trim_index"], [rec, cb, base], {})
     J.safety(ctx, mk)
     J.claim(ctx, z3.And(zint(out2.start) == 0, zint(out2.stop) == zint(s2), zint(nt.trimmed_bases) == zint(t0) + n - zint(s2)),
             "NextseqQualityTrimmer: slice or trimmed_bases differ from the kernel's index", mk)
     J.witness(ctx, zint(out.stop) - zint(out.start) < n if n else None)
     J.nontrivial += 1 if n else 0
-    J.sample = {"fn": "QualityTrimmer/NextseqQualityTrimmer.__call__", "n": n}
+    J.sample = {"fn": "QualityTrimmer/NextseqQualityTrimmer.__call__", "n": n, "base": base}
 
 
 def run_parse(J):
@@ -430,15 +431,16 @@ def replay(cex):
         return (tuple(a) != tuple(b)) or c != d, "base 33: %r/%r, base 64: %r/%r" % (a, c, b, d)
     if k == "modifiers":
         rec = dnaio.SequenceRecord("r", cex["sequence"], cex["qualities"])
-        qt = M.QualityTrimmer(cex["cutoff_front"], cex["cutoff_back"], 33)
+        base = cex.get("base", 33)
+        qt = M.QualityTrimmer(cex["cutoff_front"], cex["cutoff_back"], base)
         qt.trimmed_bases = cex["trimmed_before"]
         out = qt(rec, None)
-        s, e = expected_qti(cex["qualities"], cex["cutoff_front"], cex["cutoff_back"], 33)
+        s, e = expected_qti(cex["qualities"], cex["cutoff_front"], cex["cutoff_back"], base)
         bad = out.sequence != cex["sequence"][s:e] or out.qualities != cex["qualities"][s:e] or qt.trimmed_bases != cex["trimmed_before"] + len(rec) - (e - s)
-        nt = M.NextseqQualityTrimmer(cex["cutoff_back"], 33)
+        nt = M.NextseqQualityTrimmer(cex["cutoff_back"], base)
         nt.trimmed_bases = cex["trimmed_before"]
         out2 = nt(rec, None)
-        q = [cex["cutoff_back"] - 1 if b == "G" else ord(c) - 33 for b, c in zip(cex["sequence"], cex["qualities"])]
+        q = [cex["cutoff_back"] - 1 if b == "G" else ord(c) - base for b, c in zip(cex["sequence"], cex["qualities"])]
         e2 = brute_suffix(q, cex["cutoff_back"])
         bad2 = out2.sequence != cex["sequence"][:e2] or out2.qualities != cex["qualities"][:e2] or nt.trimmed_bases != cex["trimmed_before"] + len(rec) - e2
         return bad or bad2, "QualityTrimmer -> %r (trimmed_bases %r), Nextseq -> %r (trimmed_bases %r)" % (out.sequence, qt.trimmed_bases, out2.sequence, nt.trimmed_bases)
